@@ -13,11 +13,11 @@ DEMO_CRATE=$(echo $DEMO_FILE | sed -E 's|crates/([^/]+)/.*|\1|')
 DEMO_TEST=$(basename $DEMO_FILE .rs)
 echo "== demo: $DEMO_FILE (crate $DEMO_CRATE test $DEMO_TEST)"
 git apply $S/demo.diff || { echo "demo does not apply"; exit 9; }
-cargo test --offline -p $DEMO_CRATE --test $DEMO_TEST 2>&1 | grep -E "^test result|error(\[|:)" | head -3
+cargo test --offline -p $DEMO_CRATE --test $DEMO_TEST 2>&1 | grep -E "^test result|^error(\[|:)" | head -3
 CLEAN=$?
 git apply $S/patch.diff || { echo "patch does not apply"; exit 9; }
 echo "== demo with patch (must fail)"
-cargo test --offline -p $DEMO_CRATE --test $DEMO_TEST 2>&1 | grep -E "^test result|error(\[|:)" | head -3
+cargo test --offline -p $DEMO_CRATE --test $DEMO_TEST 2>&1 | grep -E "^test result|^error(\[|:)" | head -3
 echo "== existing tests with patch (must pass)"
 git apply -R $S/demo.diff
 for c in $CRATES; do cargo test --offline -p $c 2>&1 | grep -E "^test result" | head -4; done
